@@ -18,14 +18,15 @@ import (
 
 // Env configures one harness run.
 type Env struct {
-	Params   map[string]int64 // concrete harness parameters (tier dependent)
-	Gates    map[string]string // feature gate -> "true" | "false" | "sym"
-	InitPkgs []string          // package path prefixes whose initialisers are run
-	Files    map[string]string // initial in-memory file system
-	Verbose  bool
-	NoMerge  bool
-	Merge    []string // further functions (full names) or package paths (trailing /) to if-convert
-	Budget   int64
+	Params       map[string]int64  // concrete harness parameters (tier dependent)
+	Gates        map[string]string // feature gate -> "true" | "false" | "sym"
+	InitPkgs     []string          // package path prefixes whose initialisers are run
+	Files        map[string]string // initial in-memory file system
+	Verbose      bool
+	NoMerge      bool
+	Redirect     map[string]string // function full name -> full name of the harness function that replaces it (contract stubs)
+	Merge        []string          // further functions (full names) or package paths (trailing /) to if-convert
+	Budget       int64
 	MaxDecisions int
 }
 
@@ -160,7 +161,19 @@ func (i *interpreter) stubFor(fn *ssa.Function) externalFn {
 	}
 	var ext externalFn
 	name := fn.String()
-	if e := externals[name]; e != nil {
+	if to, ok := i.env.Redirect[name]; ok && i.env != nil {
+		target := i.lookupFunc(to)
+		if target == nil {
+			panic(engineAbort{"engine-error", "redirect target not found: " + to})
+		}
+		ext = func(fr *frame, a []value) value {
+			if fr.i.initMode {
+				fr.i.bypass = fn
+				return callSSAraw(fr.i, fr.caller, token.NoPos, fn, a, nil)
+			}
+			return call(fr.i, fr.caller, token.NoPos, target, a)
+		}
+	} else if e := externals[name]; e != nil {
 		ext = e
 	} else if fn.Pkg != nil && fn.Name() != "init" {
 		p := fn.Pkg.Pkg.Path()
@@ -247,4 +260,17 @@ func mustDeref(t types.Type) types.Type {
 		return p.Elem()
 	}
 	panic(fmt.Sprintf("not a pointer: %v", t))
+}
+
+// lookupFunc resolves "pkgpath.Func" to an SSA function (package-level functions only).
+func (i *interpreter) lookupFunc(full string) *ssa.Function {
+	k := strings.LastIndex(full, ".")
+	if k < 0 || strings.HasPrefix(full, "(") {
+		return nil
+	}
+	p := i.prog.ImportedPackage(full[:k])
+	if p == nil {
+		return nil
+	}
+	return p.Func(full[k+1:])
 }
